@@ -590,10 +590,16 @@ class LeCocBed(Bed):
             ch.sink = lambda data: ch.write(bytes(data))
 
         self.vic.create_l2cap_server(l2cap.LeCreditBasedChannelSpec(psm=self.PSM, mtu=64, mps=32), on_channel)
+        self.rule_violation = False
+        self._open_channel()
+
+    def _open_channel(self):
+        from bumble import l2cap
 
         async def go():
             return await self.a_conn.create_l2cap_channel(l2cap.LeCreditBasedChannelSpec(psm=self.PSM))
 
+        self.v_chan = None
         ch = self.world.run(go())
         self.world.settle()
         assert self.v_chan is not None
@@ -601,6 +607,30 @@ class LeCocBed(Bed):
         self.dyn_rx_cid = ch.source_cid  # attacker's endpoint
         self.v_mtu = self.v_chan.mtu
         self.v_mps = self.v_chan.mps
+
+    def on_capture(self, cid, pdu):
+        # the raw attacker behaves like a peer where the protocol needs it to: a Disconnection Request of the victim for
+        # the channel is answered, a (raw) connection request's response is noted
+        if cid != 5 or len(pdu) < 4:
+            return
+        if pdu[0] == 0x06 and len(pdu) == 8 and struct.unpack('<HH', pdu[4:8]) == (self.dyn_rx_cid, self.dyn_cid):
+            self.victim_closed_channel = True
+            self.send('lesig', bytes([0x07, pdu[1], 4, 0]) + pdu[4:8])
+        elif pdu[0] == 0x15 and len(pdu) >= 14:
+            self.raw_open_response = struct.unpack('<HHHHH', pdu[4:14])
+
+    def _open_channel_raw(self):
+        """LE Credit Based Connection Request sent as raw signalling (the attacker's stack is detached by now)."""
+        self.raw_open_response = None
+        self.raw_scid = getattr(self, 'raw_scid', 0x0060) + 1
+        ident = (self.next_tid() % 250) + 1
+        self.send('lesig', bytes([0x14, ident, 10, 0]) + struct.pack('<HHHHH', self.PSM, self.raw_scid, 64, 32, 8))
+        self.psettle()
+        r = self.raw_open_response
+        if r is None or r[4] != 0:
+            raise RuntimeError(f'no successful connection response ({r})')
+        self.dyn_cid, self.dyn_rx_cid = r[0], self.raw_scid
+        self.v_mtu, self.v_mps = self.v_chan.mtu, self.v_chan.mps
 
     def grant(self, n: int):
         # LE Flow Control Credit: CID = the sender's (attacker's) endpoint of the channel
@@ -620,6 +650,22 @@ class LeCocBed(Bed):
         the SDU length), so that the reference request starts a new SDU.  False = the channel cannot be
         probed (announced length above the victim's MTU, for which the specification demands that the
         victim disconnects the channel; or the frame ends inside the length field)."""
+        # frames for which the specification has the RECEIVER disconnect the channel (independent decode): a K-frame longer
+        # than the receiver's MPS, an SDU announced longer than its MTU.  If the victim did so, the reference request is
+        # made on a new channel of the same connection (see probe)
+        self.rule_violation = False
+        if chan == 'dyn' and not isinstance(data, (tuple, list)):
+            mid = getattr(self.v_chan, 'in_sdu', None) is not None and self.v_chan.state.name == 'CONNECTED'
+            if len(data) > self.v_mps:
+                self.rule_violation = True  # K-frame longer than the receiver's MPS
+            elif not mid and len(data) >= 2:
+                total = data[0] | (data[1] << 8)
+                # SDU longer than the receiver's MTU, or more data than the SDU length announces
+                self.rule_violation = total > self.v_mtu or len(data) - 2 > total
+            elif mid:
+                want = getattr(self.v_chan, 'in_sdu_length', None)
+                have = max(0, len(getattr(self.v_chan, 'in_sdu', b'') or b'') - 2)  # (bumble keeps the 2-octet length in in_sdu)
+                self.rule_violation = want is not None and have + len(data) > want
         if chan != 'dyn' or isinstance(data, (tuple, list)) or self.v_chan.in_sdu is None and len(data) >= 2 and len(data) - 2 >= (data[0] | (data[1] << 8)):
             return True
         if len(data) < 2:
@@ -638,6 +684,15 @@ class LeCocBed(Bed):
         return True
 
     def probe(self):
+        if self.rule_violation and self.v_chan.state.name != 'CONNECTED':
+            # the victim closed the CHANNEL over a frame that breaks the channel's rules (what the specification asks of
+            # it); the connection must still serve: a new channel is opened and the request made there
+            self.psettle()
+            try:
+                self._open_channel_raw()
+            except Exception as e:  # noqa: BLE001
+                return f'new_channel_refused_after_rule_violation:{type(e).__name__}'
+            self.rule_violation = False
         self.grant(8)
         self.psettle()
         self.n_probe = getattr(self, 'n_probe', 0) + 1
